@@ -97,6 +97,8 @@ class Rig:
         self.events: list[dict] = []
         self.pending: dict[int, tuple] = {}    # c -> (reqt, limiter)
         self.task_conn: dict = {}
+        self.on_grant: dict = {}
+        self.finished = False
         # configure the initial limit through the public setter: hands the limiter to the connections
         getattr(self.net, self.setter)(k0)
         self._note_current()
@@ -152,6 +154,9 @@ class Rig:
         try:
             n = await lim.take_tokens()
         except asyncio.CancelledError:
+            self.pending.pop(c, None)
+            if not self.finished:
+                self.events.append(dict(ev='cancel', c=c, t=ticks(self.loop)))
             raise
         except Exception as exc:
             self.pending.pop(c, None)
@@ -164,6 +169,9 @@ class Rig:
         g = self.gen_of.get(id(lim), g)
         self.events.append(dict(ev='grant', c=c, t=ticks(self.loop), n=int(n) if isinstance(n, int) else -1,
                                 cnt=1, g=g, rcur=bool(rcur), reqt=t0, b=b, a=a))
+        hook = self.on_grant.pop(c, None)
+        if hook is not None:
+            hook()          # e.g. cancel the connection that has just been given the turn, before it runs
         return n
 
     def note_sleep(self, delay):
@@ -180,6 +188,7 @@ class Rig:
             if now - t0 >= w:
                 w, k = now - t0, self.kbps_of(lim)
         self.events.append(dict(ev='end', t=now, w=w, k=k))
+        self.finished = True
         return self.events
 
 
@@ -208,9 +217,28 @@ def run_stimuli(sc: dict) -> list[dict]:
     rig_ref: list = [None]
 
     async def main(loop):
-        rig = Rig(loop, sc['k0'], sc['n'], sc.get('dir', 'up'))
+        timely = bool(sc.get('timely'))
+        rig = Rig(loop, sc['k0'], sc['n'], sc.get('dir', 'up'), timely=1 if timely else 0)
         rig_ref[0] = rig
         tasks = {}
+
+        def cancel(c):
+            t = tasks.get(c)
+            if t is not None and not t.done() and c in rig.pending:
+                t.cancel()
+
+        async def advance(d):
+            """timely: every timer that becomes due on the way runs at its own tick"""
+            target = ticks(loop) + d
+            while timely:
+                due = [math.ceil((h.when() - START) * TPS - 1e-6) for h in loop._scheduled if not h.cancelled()]
+                nxt = min(due) if due else None
+                if nxt is None or nxt >= target:
+                    break
+                loop._vtime = START + max(nxt, ticks(loop)) / TPS
+                await vloop.settle(loop)
+            loop._vtime = START + target / TPS
+
         for st in sc['steps']:
             if st[0] == 'req':
                 c = st[1]
@@ -218,9 +246,17 @@ def run_stimuli(sc: dict) -> list[dict]:
                     continue
                 tasks[c] = asyncio.ensure_future(rig.request(c))
             elif st[0] == 'tick':
-                loop.advance(st[1] / TPS)
+                await advance(st[1])
             elif st[0] == 'set':
                 rig.set_limit(st[1])
+            elif st[0] == 'cancel':
+                cancel(st[1])
+            elif st[0] == 'tick+cancel':          # the clock moves, c is cancelled before anything due runs
+                await advance(st[1])
+                cancel(st[2])
+            elif st[0] == 'cancel-on-grant':      # when c1 is granted, c2 (who gets the turn) is cancelled at once
+                rig.on_grant[st[1]] = (lambda v=st[2]: cancel(v))
+                continue
             await vloop.settle(loop)
         ev = rig.finish()
         for t in tasks.values():
@@ -246,6 +282,9 @@ def run_auto(sc: dict) -> list[dict]:
             rig_ref[0] = rig
             budget = [sc.get('max_calls', 40000)]
 
+            cancels = sorted(sc.get('cancels', []))
+            req_task: dict = {}
+
             async def conn(c, prog):
                 for think, calls in prog:
                     if think:
@@ -254,7 +293,26 @@ def run_auto(sc: dict) -> list[dict]:
                         if budget[0] <= 0:
                             return
                         budget[0] -= 1
-                        await rig.request(c)
+                        if not cancels:
+                            await rig.request(c)
+                            continue
+                        t = req_task[c] = asyncio.ensure_future(rig.request(c))
+                        try:
+                            await t
+                        except asyncio.CancelledError:
+                            if not t.cancelled() or asyncio.current_task().cancelling():
+                                raise
+                            # this call was cancelled (transfer aborted): the connection goes on with its next one
+
+            async def canceller():
+                now = 0
+                for at, c in cancels:
+                    if at > now:
+                        await real_sleep((at - now) / TPS)
+                        now = at
+                    t = req_task.get(c)
+                    if t is not None and not t.done() and c in rig.pending:
+                        t.cancel()
 
             async def setter():
                 t = 0
@@ -266,9 +324,10 @@ def run_auto(sc: dict) -> list[dict]:
 
             tasks = [asyncio.ensure_future(conn(i + 1, p)) for i, p in enumerate(sc['progs'])]
             tasks.append(asyncio.ensure_future(setter()))
+            extra = [asyncio.ensure_future(canceller())] if cancels else []
             await asyncio.wait(tasks, timeout=sc['dur'] / TPS)
             ev = rig.finish()
-            for t in tasks:
+            for t in tasks + extra + list(req_task.values()):
                 t.cancel()
             return ev
 
@@ -346,10 +405,12 @@ def run_wire(sc: dict) -> list[dict]:
                         c = info.get(('conn', task))
                         if c is not None:
                             rig.pending[c] = (t0, self)
-                        n = await orig(self)
+                        try:
+                            n = await orig(self)
+                        finally:
+                            if c is not None:
+                                rig.pending.pop(c, None)
                         info[task]['granted'] = True
-                        if c is not None:
-                            rig.pending.pop(c, None)
                         return n
                     return take_tokens
                 patched.append((cls, orig))
@@ -421,11 +482,22 @@ def run_wire(sc: dict) -> list[dict]:
                         t = at
                     rig.set_limit(k)
 
+            async def canceller():        # the transfer of connection c is aborted (its task cancelled)
+                now = 0
+                for at, c in sorted(sc.get('cancels', [])):
+                    if at > now:
+                        await asyncio.sleep((at - now) / TPS)
+                        now = at
+                    if not tasks[c - 1].done():
+                        tasks[c - 1].cancel()
+                        rig.events.append(dict(ev='cancel', c=c, t=ticks(loop)))
+
             tasks = [asyncio.ensure_future(transfer(i + 1)) for i in range(sc['n'])]
             tasks.append(asyncio.ensure_future(setter()))
+            extra = [asyncio.ensure_future(canceller())] if sc.get('cancels') else []
             await asyncio.wait(tasks, timeout=sc['dur'] / TPS)
             ev = rig.finish()
-            for t in tasks:
+            for t in tasks + extra:
                 t.cancel()
             await vloop.settle(loop)          # what was written is delivered to the other end
             for t in sinks:
@@ -489,9 +561,45 @@ def regression_scenarios() -> list[dict]:
     stim('raise-saturated', 1, 2, drain(1) + [('req', 2)] + [('tick', 11)] * 5 + [('set', 8)] + [('tick', 11), ('req', 1), ('req', 2)] * 12)
     stim('lower-saturated', 8, 2, drain(8) + [('req', 2)] + [('tick', 11)] * 2 + [('set', 1)] + [('tick', 11), ('req', 1), ('req', 2)] * 30)
 
-    def auto(name, k0, progs, dur, sets=(), d='up', clock='tick'):
+    # a waiting take_tokens() call is cancelled (transfer aborted / paused): the others must go on.
+    # Timely stepping, so that the wait bound is judged.  After the cancellation everybody keeps asking.
+    def keep_asking(conns, rounds):
+        st = []
+        for _ in range(rounds):
+            st += [('req', c) for c in conns] + [('tick', 11)]
+        return st + [('tick', 6000)] + [('req', c) for c in conns] + [('tick', 11)] * 3
+
+    def tstim(name, k0, n, steps, d='up'):
+        out.append(dict(kind='stim', name=name, k0=k0, n=n, steps=steps, dir=d, timely=True))
+
+    waiting3 = drain(1) + [('req', 2), ('req', 3)]           # 1 polls, 2 and 3 are queued behind it
+    tstim('cancel-queued-behind-poller', 1, 3, waiting3 + [('tick', 22), ('cancel', 2)] + keep_asking((1, 2, 3), 60))
+    tstim('cancel-last-in-queue', 1, 3, waiting3 + [('tick', 5), ('cancel', 3)] + keep_asking((1, 2, 3), 60), d='down')
+    tstim('cancel-the-poller', 1, 3, waiting3 + [('tick', 33), ('cancel', 1)] + keep_asking((1, 2, 3), 60))
+    tstim('cancel-both-queued', 2, 4, drain(2) + [('req', 2), ('req', 3), ('req', 4), ('tick', 3), ('cancel', 3), ('cancel', 2)] +
+          keep_asking((1, 2, 3, 4), 60))
+    tstim('cancel-at-once', 1, 2, drain(1) + [('req', 2), ('cancel', 2)] + keep_asking((1, 2), 50))
+    # cancelled at the clock reading at which its poll would have found the tokens
+    for at in (130, 141, 142, 143, 144, 154):
+        tstim(f'cancel-poller-when-due-{at}', 1, 2, drain(1) + [('req', 2), ('tick+cancel', at, 1)] + keep_asking((1, 2), 40))
+    # the connection that has just been given the turn is cancelled before it runs
+    tstim('cancel-the-one-given-the-turn', 1, 3, waiting3 + [('cancel-on-grant', 1, 2)] + keep_asking((1, 2, 3), 60))
+    tstim('cancel-given-the-turn-last', 1, 2, drain(1) + [('req', 2), ('cancel-on-grant', 1, 2)] + keep_asking((1, 2), 50))
+    # cancellation of a call that waits on a replaced limiter
+    tstim('cancel-waiter-of-replaced-limiter', 1, 3, waiting3 + [('set', 2), ('tick', 4), ('cancel', 2)] + keep_asking((1, 2, 3), 60))
+
+    def auto(name, k0, progs, dur, sets=(), d='up', clock='tick', cancels=()):
         out.append(dict(kind='auto', name=name, k0=k0, n=len(progs), progs=progs, dur=dur, sets=list(sets), dir=d,
-                        clock=clock))
+                        clock=clock, cancels=list(cancels)))
+    auto('saturate-3x-k1-cancels', 1, [[(0, 300)], [(2, 300)], [(5, 300)]], 30 * TPS,
+         cancels=[(50, 2), (400, 3), (1000, 1), (1001, 2), (3000, 3), (3000, 1)])
+    auto('saturate-4x-k40-cancels', 40, [[(0, 5000)], [(1, 5000)], [(1, 5000)], [(3, 5000)]], 8 * TPS,
+         cancels=[(1100 + 7 * i, 1 + i % 4) for i in range(40)], d='down')
+    for victim in (1, 2, 3):      # one of them polls, two are queued: at least two of these abort a queued one
+        out.append(dict(kind='wire', name=f'wire-abort-{victim}-of-three', k0=2, n=3, dir='up', sizes=[20000, 20000, 20000],
+                        starts=[0, 1, 2], sets=[], cancels=[(1100, victim)], dur=40 * TPS))
+    out.append(dict(kind='wire', name='wire-abort-two-of-three-down', k0=1, n=3, dir='down', sizes=[6000, 6000, 6000],
+                    starts=[0, 0, 3], sets=[], cancels=[(1050, 3), (1300, 1)], dur=40 * TPS))
     # two / four connections saturating a small limit (phase-locked pollers)
     auto('saturate-2x-k1', 1, [[(0, 400)], [(2, 400)]], 40 * TPS)
     auto('saturate-2x-k1-float', 1, [[(0, 400)], [(2, 400)]], 40 * TPS, clock='float')
@@ -539,13 +647,15 @@ def random_stim(rng, i) -> dict:
         if r < 0.55:
             c = rng.randint(1, n)
             steps += [('req', rng.randint(1, n) if rng.random() < 0.3 else c) for _ in range(rng.choice([1, 1, 2, 5, 9, 17, 40]))]
-        elif r < 0.9:
+        elif r < 0.86:
             steps.append(('tick', max(1, _draw_gap(rng))))
+        elif r < 0.92 and n > 1:
+            steps.append(('cancel', rng.randint(1, n)) if rng.random() < 0.7 else ('tick+cancel', rng.randint(1, 30), rng.randint(1, n)))
         else:
             kcur = rng.choice(small + [_draw_limit(rng), kcur])
             steps.append(('set', kcur))
     return dict(kind='stim', name=f'rstim{i}', k0=k0 if rng.random() < 0.5 else rng.choice(small), n=n, steps=steps,
-                dir=rng.choice(['up', 'down']))
+                dir=rng.choice(['up', 'down']), timely=rng.random() < 0.5)
 
 
 def random_auto(rng, i) -> dict:
@@ -569,9 +679,12 @@ def random_auto(rng, i) -> dict:
         for _ in range(rng.randint(1, 6)):
             prog.append((_draw_gap(rng) if rng.random() < 0.7 else 0, rng.choice([1, 3, 8, 20, 100, 1000, 100000])))
         progs.append(prog)
-    return dict(kind='auto', name=f'rauto{i}', k0=k0, n=n, progs=progs, dur=dur, sets=sets,
+    cancels = []
+    if n > 1 and rng.random() < 0.4:
+        cancels = sorted((rng.randint(1, dur - 1), rng.randint(1, n)) for _ in range(rng.choice([1, 2, 5, 20])))
+    return dict(kind='auto', name=f'rauto{i}', k0=k0, n=n, progs=progs, dur=dur, sets=sets, cancels=cancels,
                 dir=rng.choice(['up', 'down']), clock='float' if rng.random() < 0.2 else 'tick',
-                max_calls=60000 if kmax > 500 else 20000)
+                max_calls=(60000 if kmax > 500 else 20000) // (3 if cancels else 1))
 
 
 def random_wire(rng, i) -> dict:
@@ -591,8 +704,11 @@ def random_wire(rng, i) -> dict:
             sizes.append(rng.choice([0, 1, 8191, 8192, 100000, 1500000]))
         else:
             sizes.append(min(3_000_000, rng.choice([0, 100, 128, 129, 5000, keff * 1024 + 700, keff * 1024 * 3])))
+    cancels = []
+    if n > 1 and rng.random() < 0.4:
+        cancels = [(rng.randint(1, dur - 1), rng.randint(1, n)) for _ in range(rng.choice([1, 1, 2]))]
     return dict(kind='wire', name=f'rwire{i}', k0=k0, n=n, dir=rng.choice(['up', 'down']), sizes=sizes,
-                starts=[rng.choice([0, 0, 3, 40, 600]) for _ in range(n)], sets=sets, dur=dur)
+                starts=[rng.choice([0, 0, 3, 40, 600]) for _ in range(n)], sets=sets, cancels=cancels, dur=dur)
 
 
 class Hang(KeyboardInterrupt):
@@ -640,7 +756,7 @@ def execute(sc: dict) -> list[dict]:
 # direction A: behaviours of the design model -> stimuli
 # ---------------------------------------------------------------------------
 
-_LAB = re.compile(r'(Request|Tick|SetLimit|Poll)\((\d+)\)')
+_LAB = re.compile(r'(Request|Tick|SetLimit|Poll|Cancel)\((\d+)\)')
 
 
 def stimuli_of(labels) -> tuple:
@@ -655,6 +771,8 @@ def stimuli_of(labels) -> tuple:
             out.append(('tick', int(m.group(2))))
         elif m.group(1) == 'SetLimit':
             out.append(('set', int(m.group(2))))
+        elif m.group(1) == 'Cancel':
+            out.append(('cancel', int(m.group(2))))
         # Poll happens by itself in the real loop when its timer is due
     return tuple(out)
 
@@ -670,7 +788,8 @@ def behaviour_scenarios(chk: Check, num: int, depth: int) -> list[dict]:
         if not any(s[0] == 'req' for s in st) or (k0, st) in seen:
             continue
         seen.add((k0, st))
-        out.append(dict(kind='stim', name=f'tlc{len(out)}', k0=k0, n=3, steps=list(st),
+        # the behaviours come from the Timely model: due polls run on time in the replay too
+        out.append(dict(kind='stim', name=f'tlc{len(out)}', k0=k0, n=3, steps=list(st), timely=True,
                         dir='up' if len(out) % 2 == 0 else 'down', source='tlc-simulate'))
     chk.cov['sim_behaviours_real_units'] = len(behs)
     chk.cov['sim_states_real_units'] = res.states_generated
@@ -696,10 +815,15 @@ def _fingerprint(tid, info, trace):
                         break
             t1 = ev.get('t', 0)
             t0 = ev.get('reqt', t1 - ev.get('w', 0))
-            overtaken = any(e['ev'] == 'grant' and t0 < e['t'] <= t1 and e.get('reqt', 0) >= t0 and e is not ev
-                            for e in trace[:idx])
-            return ('C20:take_tokens:waiting-request-overtaken-for-ever:no-fifo-among-pollers' if overtaken
-                    else 'C20:take_tokens:no-grant-while-waiting:stall')
+            # overtaken: the limiter was still serving others during the last second(s) of the wait
+            bound = trace[0]['n'] * TPS + trace[0]['jit']
+            overtaken = any(e['ev'] == 'grant' and max(t0, t1 - bound) < e['t'] <= t1 and e.get('reqt', 0) >= t0
+                            and e is not ev for e in trace[:idx])
+            if overtaken:
+                return 'C20:take_tokens:waiting-request-overtaken-for-ever:no-fifo-among-pollers'
+            if any(e['ev'] == 'cancel' and e['t'] <= t1 for e in trace[:idx]):
+                return 'C20:take_tokens:no-grant-after-a-waiting-call-was-cancelled:stall'
+            return 'C20:take_tokens:no-grant-while-waiting:stall'
         if name == 'WindowBoundT':
             sets = [e for e in trace[:idx] if e['ev'] == 'set']
             ks = [trace[0]['k']] + [e['k'] for e in sets]
@@ -875,7 +999,7 @@ def run(chk: Check, args):
                        '(RateLimiterTrace, Exact = FALSE); distinct = distinct recorded traces; non-trivial = at least '
                        'one grant under a limit')
     W = 2
-    expect = ['Request', 'Poll', 'Tick', 'SetLimit']
+    expect = ['Request', 'Poll', 'Tick', 'SetLimit', 'Cancel']
     dev_fast = bool(os.environ.get('VERIF_C20_DEV_SKIP_MODELS'))    # development aid (mutant loops) only
     if dev_fast:
         chk.log('DEVELOPMENT MODE: design models and conformance skipped')
@@ -887,6 +1011,7 @@ def run(chk: Check, args):
             'teeth_stalerate': pool.submit(tlc.run_tlc, SPEC, 'MC_teeth_stalerate.cfg', workers=W, timeout=600),
             'teeth_nofifo': pool.submit(tlc.run_tlc, SPEC, 'MC_teeth_nofifo.cfg', workers=1, timeout=600),
             'teeth_live_nofifo': pool.submit(tlc.run_tlc, SPEC, 'MC_live_nofifo.cfg', workers=1, timeout=600),
+            'teeth_deadwaiter': pool.submit(tlc.run_tlc, SPEC, 'MC_teeth_deadwaiter.cfg', workers=1, timeout=600),
         }
         if thorough:
             jobs['scaled_c2'] = pool.submit(tlc.model_check, SPEC, 'MC_scaled_c2.cfg', expect_actions=expect, workers=4, timeout=3000)
@@ -909,6 +1034,7 @@ def run(chk: Check, args):
         'stale_rate_on_change_violates_WindowBound': any(i.name == 'WindowBound' for i in res['teeth_stalerate'].issues),
         'no_fifo_violates_BoundedBypass': any(i.name == 'BoundedBypass' for i in res['teeth_nofifo'].issues),
         'no_fifo_violates_EventuallyGranted': any(i.kind == 'temporal' for i in res['teeth_live_nofifo'].issues),
+        'turn_lost_on_cancelled_waiter_violates_NoStall': any(i.name == 'NoStall' for i in res['teeth_deadwaiter'].issues),
     }
     chk.cov['binding_selftest'].update(teeth)
     chk.notes.append(
@@ -983,6 +1109,8 @@ def _executions(chk: Check, thorough: bool, tlc_scs: list, conform: bool):
         'largest limit in force inside the window; a window that touches an unlimited period is unbounded',
         'a take_tokens() call issued before a limit change and still waiting on the replaced limiter object is accounted '
         'to the replaced limiter (at most one chunk per connection), not to the window of the new limit',
+        'cancellation of a waiting take_tokens() call (transfer aborted / paused / removed) is part of the environment: the '
+        'cancelled call leaves the queue, the bounded wait of the remaining calls must still hold',
         'bounded wait is judged on a timely loop (every due poll runs before the clock moves on): a request returns '
         'within one second per connection sharing the limiter, for every limit >= 1 KiB/s',
     ]
